@@ -52,8 +52,11 @@ class ModbusAsciiFramer(ModbusFramer):
     # ----------------------------------------------------------------------- #
     def decode_data(self, data):
         if len(data) > 1:
-            uid = int(data[1:3], 16)
-            fcode = int(data[3:5], 16)
+            try:
+                uid = int(data[1:3], 16)
+                fcode = int(data[3:5], 16)
+            except ValueError:  # not the head of an ASCII frame
+                return dict()
             return dict(unit=uid, fcode=fcode)
         return dict()
 
